@@ -123,6 +123,10 @@ def searchStep (s : SearchState) (o : OpLine) : SearchState × String :=
     match o.nats? "ids" with
     | some ids => ({ s with marked := s.marked ++ ids }, "=> ok")
     | none => (s, "=> bad-op")
+  | "del" =>   -- physical removal of stored objects: they leave the index entirely
+    match o.nats? "ids" with
+    | some ids => ({ s with hdrs := s.hdrs.filter (fun h => !ids.contains h.id), marked := s.marked.filter (fun m => !ids.contains m) }, "=> ok")
+    | none => (s, "=> bad-op")
   | "epoch" =>
     match o.nat? "e" with
     | some e => ({ s with epoch := e }, "=> ok")
